@@ -75,7 +75,8 @@ class Ref:
         self.open = [bool(b) for b in lat.bc]
         self.cells = range(first // self.N - 2, (first + self.n) // self.N + 3) if not self.finite else [0]
         self.H = np.zeros((self.D, self.D), complex)
-        self.max_range = 0  # of all terms of the model (also those not fitting into the window)
+        self.max_range = 0  # of all non-zero terms of the model (also those not fitting into the window)
+        self.name_range = 0  # the same including products of operators which vanish (as C C on one site)
         self.jw_between = False  # some term needs a JW string on a site on which it has no operator
         self.exp = self.explicit_string = False
         self._local = {}
@@ -137,6 +138,7 @@ class Ref:
             for j in range(lo, i + 1) if s.op_needs_JW(nm) else [i]:
                 m = ms[j % self.N].get_op(nm if j == i else 'JW').to_ndarray()
                 fac[j] = m if j not in fac else fac[j] @ m
+        self.name_range = max(self.name_range, hi - lo)
         if any(not np.any(m) for m in fac.values()):
             return  # (e.g. C C on one site: no term)
         self.max_range = max(self.max_range, hi - lo)
@@ -152,7 +154,7 @@ class Ref:
         """Add strength * ops[0]_i (x) op_string[0] ... (x) ops[1]_j ... exactly as given (no JW handling)."""
         if isinstance(op_string, str):
             op_string = [op_string] * (len(idx) - 1)
-        self.max_range = max(self.max_range, idx[-1] - idx[0])
+        self.max_range = self.name_range = max(self.max_range, idx[-1] - idx[0])
         self.explicit_string |= any(s != 'Id' for s in op_string)
         for c in self.cells:
             sh = [i + c * self.N - self.first for i in idx]
@@ -320,29 +322,32 @@ def mpo_dense(H, first=0, n=None):
     return T + T.conj().T if H.explicit_plus_hc else T
 
 
-def bonds_dense(H_bond, sites, first, n, finite):
-    """sum of the bond terms inside the window.  For an infinite system H = sum_i H_bond[i] fixes the bond terms
-    only up to moving single-site parts between neighbouring bonds, therefore the single-site parts of the two
-    bonds crossing the window boundaries are included (on the site inside the window)."""
+def bonds_dense(H_bond, sites, first, n):
+    """Sum of the bond terms H_bond[i] (acting on sites i-1, i) which act inside the window."""
     L = len(H_bond)
     dims = [sites[i % L].dim for i in range(first, first + n)]
     H = np.zeros((int(np.prod(dims)),) * 2, complex)
-
-    def dense4(j):
-        return None if H_bond[j % L] is None else H_bond[j % L].transpose(['p0', 'p1', 'p0*', 'p1*']).to_ndarray()
-
     for k in range(1, n):
-        m = dense4(first + k)
-        if m is not None:
+        h = H_bond[(first + k) % L]
+        if h is not None:
+            m = h.transpose(['p0', 'p1', 'p0*', 'p1*']).to_ndarray()
             H += place(m.reshape(m.shape[0] * m.shape[1], -1), dims, k - 1, 2)
-    if not finite:  # A (x) 1 + 1 (x) B + two-site rest; the identity component may sit anywhere
-        mL, mR = dense4(first), dense4(first + n)
-        if mL is not None:
-            A = np.einsum('abcb->ac', mL) / mL.shape[1]
-            H += place(np.einsum('abad->bd', mL) / mL.shape[0] - np.trace(A) / A.shape[0] * np.eye(mL.shape[1]), dims, 0, 1)
-        if mR is not None:
-            H += place(np.einsum('abcb->ac', mR) / mR.shape[1], dims, n - 1, 1)
     return H
+
+
+def boundary_residual(D, dL, dR):
+    """(largest entry of D which is not of the form a (x) 1 + 1 (x) b, identity component of D), where a (b) acts
+    on the first dL (last dR) dimensions.  For an infinite system H = sum_i H_bond[i] fixes the bond terms only up
+    to moving single-site operators between neighbouring bonds; on a window this changes the sum of the inner
+    bonds exactly by such operators on the first and on the last site."""
+    dim = D.shape[0]
+    T = D.reshape(dL, dim // dL, dL, dim // dL)
+    a = np.einsum('ajbj->ab', T) / (dim // dL)
+    T = D.reshape(dim // dR, dR, dim // dR, dR)
+    b = np.einsum('jajb->ab', T) / (dim // dR)
+    c = np.trace(D) / dim
+    model = np.kron(a, np.eye(dim // dL)) + np.kron(np.eye(dim // dR), b) - c * np.eye(dim)
+    return np.abs(D - model).max(), c
 
 
 def pipe_perm(pipe):
@@ -363,3 +368,9 @@ def sort_basis(H, sites, undo=False):
     perms = [np.argsort(s.perm) if undo else s.perm for s in sites]
     d = [s.dim for s in sites]
     return H.reshape(d + d)[np.ix_(*(perms * 2))].reshape(H.shape)
+
+
+def standard_basis(H, sites):
+    """Basis of the (grouped, charge-sorted) sites -> Kronecker basis of the elementary sites as for conserve=None."""
+    elementary = [t for s in sites for t in (s.sites if hasattr(s, 'n_sites') else [s])]
+    return sort_basis(unfold(H, sites), elementary, undo=True)
